@@ -48,10 +48,14 @@ def c07_prog(name, rng, force=None):
     def fields_decl(kind, tys, pub):
         if kind == "unit":
             return ""
+        # field-level `#[derive_ex(Clone(bound(..)))]` / `#[derive_ex(Clone, bound(..))]` on some fields: they only concern bounds and
+        # must not change which field is cloned into which
+        FA = ["#[derive_ex(Clone(bound()))] ", "#[derive_ex(Clone(bound(..)))] ", "#[derive_ex(Clone, bound(..))] ", "#[derive_ex(Clone, bound())] "]
         ts = [TY[t] for t in tys]
+        fa = [(rng.choice(FA) if rng.random() < 0.3 else "") for _ in tys]
         if kind == "named":
-            return " { " + ", ".join("%s%s: %s" % (pub, "abcde"[i], t) for i, t in enumerate(ts)) + " }"
-        return "(" + ", ".join(pub + t for t in ts) + ")"
+            return " { " + ", ".join("%s%s%s: %s" % (fa[i], pub, "abcde"[i], t) for i, t in enumerate(ts)) + " }"
+        return "(" + ", ".join(fa[i] + pub + t for i, t in enumerate(ts)) + ")"
     head = "#[derive_ex::derive_ex(%s)]\n#[derive(Debug)]\n" % ", ".join(derive)
     if is_enum:
         extra = ", #[doc(hidden)] Zl(core::marker::PhantomData<&'a ()>)" if with_lt else ""
@@ -181,6 +185,16 @@ pub fn fun(k: u8, a: L) -> L { L { v: a.v.wrapping_mul(5) ^ k.wrapping_mul(91), 
         out.append("impl<'a, 'b> core::ops::%s<&'b L> for &'a L { type Output = L; fn %s(self, r: &'b L) -> L { fop(%d, *self, *r) } }" % (op, f, k))
         out.append("impl core::ops::%sAssign<L> for L { fn %s_assign(&mut self, r: L) { *self = fop(%d, *self, r) } }" % (op, f, k))
         out.append("impl<'a> core::ops::%sAssign<&'a L> for L { fn %s_assign(&mut self, r: &'a L) { *self = fop(%d, *self, *r) } }" % (op, f, k))
+    # decoys: inherent methods named like the operator methods, doing something else; generated code must reach the trait impls
+    # (fully qualified calls), whatever else the field type offers under the same name
+    dec = []
+    for op in BINOPS:
+        f = FN[op]
+        dec.append("pub fn %s<R>(self, _r: R) -> L { L { v: 0xEE, n: 77 } }" % f)
+        dec.append("pub fn %s_assign<R>(&mut self, _r: R) { self.v = 0xEE; self.n = 77; }" % f)
+    dec.append("pub fn neg(self) -> L { L { v: 0xEE, n: 77 } }")
+    dec.append("pub fn not(self) -> L { L { v: 0xEE, n: 77 } }")
+    out.append("impl L {\n    %s\n}" % "\n    ".join(dec))
     for k, op in enumerate(["Neg", "Not"]):
         f = FN[op]
         out.append("impl core::ops::%s for L { type Output = L; fn %s(self) -> L { fun(%d, self) } }" % (op, f, 20 + k))
@@ -249,8 +263,8 @@ def c08_prog(name, kind, nfields, ops, generic=False):
 
 
 # ------------------------------------------------------------------------------------------------ C18
-def c18_prog(name, kind, fty, generic, where):
-    """single-field struct deriving Deref + DerefMut"""
+def c18_prog(name, kind, fty, generic, where, args="Deref, DerefMut"):
+    """single-field struct deriving Deref + DerefMut (args: the derive_ex list, possibly with bound(..) arguments)"""
     g = "<T>" if generic else ""
     w = (" where %s" % where) if where else ""
     decl_ty = fty if not generic else fty.replace("u8", "T")
@@ -263,7 +277,7 @@ def c18_prog(name, kind, fty, generic, where):
         decl = "pub struct X%s(pub %s)%s;" % (g, decl_ty, w)
         fa = "0"
         ctor = "X(v)"
-    td = "#[derive_ex::derive_ex(Deref, DerefMut)]\n%s\n" % decl
+    td = "#[derive_ex::derive_ex(%s)]\n%s\n" % (args, decl)
     text = td + r'''
 // type identity, not mere coercibility: `Target` and the field type must be the same type
 pub fn same_type<A: ?Sized>(_a: &A, _b: &A) {}
@@ -295,7 +309,7 @@ pub fn replay(h: &str, b: &[u8]) -> (bool, String) {
     }
 }
 '''.replace("EXPECT_PEEK", "TABLE[(v % 4) as usize]" if fty.startswith("&") else "v").replace("XI", XI).replace("FTY", fty).replace("FA", fa).replace("CTOR_ANY", "{ let v = <%s as MkF>::mkf(kani::any()); %s }" % (fty, ctor)).replace("CTOR", "{ %s }" % ctor)
-    return Prog(name, text, ["deref", "deref_mut"], {"describe": "%s struct X%s(%s)%s" % (kind, g, decl_ty, w)})
+    return Prog(name, text, ["deref", "deref_mut"], {"describe": "derive_ex(%s) %s struct X%s(%s)%s" % (args, kind, g, decl_ty, w)})
 
 
 C18_SUPPORT = r'''
